@@ -77,6 +77,9 @@ CrashSafeWhy(d, d0) ==
   ELSE IF \E e \in LiveEntries(d) : e.sl.c = 0 /\ e.sl.k = "file" /\ e.sl.s # 0 THEN "size-without-cluster"
   ELSE IF ~ChainsDisjoint(d) THEN "cross-link"
   ELSE IF \E id \in GoodDirIds(d) : DirExposesGarbage(d, id) THEN "garbage-dir"
+  \* (nothing but end slots behind the end marker of a reachable directory: this library's own lookups read on into the
+  \*  next block of the cluster, so uninitialised blocks there are exposed although block 0 looks fine)
+  ELSE IF \E id \in GoodDirIds(d) : ~NothingAfterEnd(d, id) THEN "after-end"
   ELSE IF \E e \in LiveEntries(d) : ~SizeOK(d, d0, e) THEN "size-ahead-of-chain"
   ELSE "ok"
 CrashSafe(d, d0) == CrashSafeWhy(d, d0) = "ok"
